@@ -89,6 +89,13 @@ impl<T: Bounded> BVH<T> {
         let ll = elements.len();
         if ll > max_num_elements {
             let (left, right) = BVH::partition_elements_by_centroid(elements);
+            // Si no se pueden separar (centros coincidentes o no finitos) usamos un único nodo terminal
+            if left.is_empty() || right.is_empty() {
+                let mut all = left;
+                all.extend(right);
+                node_list.push(TreeElement(0, Leaf, L, None, Some(all)));
+                return node_list;
+            }
             // Guardamos nodo inicial (da igual el lado)
             node_list.push(TreeElement(0, Node, L, None, None));
             // Nodos pendientes
@@ -106,6 +113,19 @@ impl<T: Bounded> BVH<T> {
                 if cll > max_num_elements {
                     // Completamos un nodo intermedio y dejamos pendientes sus ramas
                     let (left, right) = BVH::partition_elements_by_centroid(c_elems);
+                    // Si no se pueden separar (centros coincidentes o no finitos) completamos un nodo terminal
+                    if left.is_empty() || right.is_empty() {
+                        let mut all = left;
+                        all.extend(right);
+                        node_list.push(TreeElement(
+                            c_id,
+                            Leaf,
+                            c_side,
+                            c_maybe_parent_id,
+                            Some(all),
+                        ));
+                        continue;
+                    }
                     node_list.push(TreeElement(c_id, Node, c_side, c_maybe_parent_id, None));
                     pending.push(TreeElement(id + 2, Node, R, Some(c_id), Some(right)));
                     pending.push(TreeElement(id + 1, Node, L, Some(c_id), Some(left)));
